@@ -112,6 +112,48 @@ def bool_edges(fn, site):
     return fn.edge_of(site, "true"), fn.edge_of(site, "false")
 
 
+def _flag_implications(fn, local, want, depth):
+    """comparisons whose truth value is implied by `local == want` (a bool local with several definitions):
+    list of (comparison tree, bool).  Sound only in this direction: the other definitions are constants != want."""
+    if depth > 3:
+        return []
+    from .model import _flag_defs
+    loc, fneg, ds = _flag_defs(fn, local)
+    if fneg:
+        want = not want
+    comp, consts = [], set()
+    for dsite, kind, st in ds:
+        if kind == "assign" and st["rv"]["k"] == "use" and st["rv"]["op"].get("k") == "const" and st["rv"]["op"].get("val") in ("true", "false"):
+            consts.add(st["rv"]["op"]["val"] == "true")
+        else:
+            comp.append((dsite, kind, st))
+    if len(comp) != 1 or want in consts or comp[0][1] != "assign":
+        return []
+    rv = comp[0][2]["rv"]
+    vneg = False
+    if rv["k"] == "use":
+        x = sym(fn, rv["op"])
+        inner_op = rv["op"]
+    elif rv["k"] == "un" and rv["op"] == "Not":
+        x = sym(fn, rv["a"])
+        inner_op = rv["a"]
+        vneg = True
+    elif rv["k"] == "bin":
+        x = ("bin", rv["op"], sym(fn, rv["a"]), sym(fn, rv["b"]))
+        inner_op = None
+    else:
+        return []
+    while x[0] == "un" and x[1] == "Not":
+        vneg = not vneg
+        x = x[2]
+    val = want != vneg            # the stored value equals `want`; the comparison (or inner flag) equals want XOR vneg
+    if x[0] == "bin" and x[1] in ("Eq", "Ne", "Lt", "Le", "Gt", "Ge"):
+        return [(x, val)]
+    if x[0] == "v" and not x[2]:
+        return _flag_implications(fn, x[1], val, depth + 1)
+    return []
+
+
 def cmp_tests(fn):
     """all bool switches whose condition is a comparison: list of dict(site, op, a, b, true_edge, false_edge)"""
     out = []
@@ -129,50 +171,18 @@ def cmp_tests(fn):
                 te, fe = fe, te
             out.append({"site": site, "op": c[1], "a": c[2], "b": c[3], "true_edge": te, "false_edge": fe, "line": t.get("l")})
         elif c[0] == "v" and not c[2]:
-            # a flag: `let due = p && q && (x == 0); if due {..}` -- the last conjunct has no switch of its own, its value is
-            # stored in the flag on the one path on which everything before it held.  The flag's true edge then implies the
-            # comparison (and nothing is known on the false edge); dually for `p || (x == 0)`.
-            from .model import _flag_defs
-            local, fneg, ds = _flag_defs(fn, c[1])
-            consts, comp = set(), []
-            for dsite, kind, st in ds:
-                if kind == "assign" and st["rv"]["k"] == "use" and st["rv"]["op"].get("k") == "const" and st["rv"]["op"].get("val") in ("true", "false"):
-                    consts.add(st["rv"]["op"]["val"])
-                else:
-                    comp.append((dsite, kind, st))
-            if len(comp) != 1 or len(consts) != 1 or comp[0][1] != "assign":
-                continue
-            rv = comp[0][2]["rv"]
-            if rv["k"] == "use":
-                cc = sym(fn, rv["op"])
-            elif rv["k"] == "un" and rv["op"] == "Not":
-                cc = ("un", "Not", sym(fn, rv["a"]))
-            elif rv["k"] == "bin":
-                cc = ("bin", rv["op"], sym(fn, rv["a"]), sym(fn, rv["b"]))
-            else:
-                continue
-            while cc[0] == "un" and cc[1] == "Not":
-                cc = cc[2]
-            if not (cc[0] == "bin" and cc[1] in ("Eq", "Ne", "Lt", "Le", "Gt", "Ge")):
-                continue
-            # FT/FF: the switch edges for flag==true / flag==false
-            ft, ff = bool_edges(fn, site)
-            if fneg != neg:
-                ft, ff = ff, ft
-            # value stored = comparison XOR vneg, where vneg counts only the negations between comparison and the stored value
-            vneg = False
-            x = sym(fn, rv["op"]) if rv["k"] == "use" else (("un", "Not", sym(fn, rv["a"])) if rv["k"] == "un" else cc)
-            while x[0] == "un" and x[1] == "Not":
-                vneg = not vneg
-                x = x[2]
-            ent = {"true_edge": None, "false_edge": None}
-            if consts == {"false"}:
-                # flag true => stored value true => comparison == (not vneg)
-                ent["false_edge" if vneg else "true_edge"] = ft
-            else:
-                # consts == {"true"}: flag false => stored value false => comparison == vneg
-                ent["true_edge" if vneg else "false_edge"] = ff
-            out.append({"site": site, "op": cc[1], "a": cc[2], "b": cc[3], "true_edge": ent["true_edge"], "false_edge": ent["false_edge"], "line": t.get("l"), "via_flag": True})
+            # a recorded decision: `let due = p && q && (x == 0); if due {..}`, `!(a || len < limit)` returned by a helper, ..
+            # On the edge on which the flag has a given value, every comparison that this value *implies* is known
+            # (the last conjunct of `&&` on the true edge, the last disjunct of `||` on the false edge, through negations and
+            # through flags of flags).
+            te0, fe0 = bool_edges(fn, site)
+            if neg:
+                te0, fe0 = fe0, te0
+            for want, edge in ((True, te0), (False, fe0)):
+                if not edge:
+                    continue
+                for (cc, val) in _flag_implications(fn, c[1], want, 0):
+                    out.append({"site": site, "op": cc[1], "a": cc[2], "b": cc[3], "true_edge": edge if val else None, "false_edge": None if val else edge, "line": t.get("l"), "via_flag": True})
     return out
 
 
